@@ -68,6 +68,7 @@ type Field struct {
 	Terms []Term `json:"terms,omitempty"`
 	Val   Bytes  `json:"val,omitempty"`
 	Store bool   `json:"store,omitempty"`
+	NoDV  bool   `json:"nodv,omitempty"` // this instance opts out of doc values although its field name is a doc-value field
 }
 
 func (f *Field) Length() int {
@@ -87,6 +88,10 @@ type Doc struct {
 type SDoc struct {
 	D    *Doc
 	Norm int
+	// DV: the doc-value fields of the batch the document was built in (a field
+	// is indexed with doc values in a segment when at least one instance of
+	// it in the batch asks for them). nil: use Expect's dv argument.
+	DV map[string]bool
 }
 
 // ---- observations -------------------------------------------------------
